@@ -787,7 +787,7 @@ func (node *Show) walkSubtree(visit Visit) error {
 // Format formats the node.
 func (node *ShowFilter) Format(buf *TrackedBuffer) {
 	if node.Like != "" {
-		buf.Myprintf("like '%s'", node.Like)
+		buf.Myprintf("like %v", NewStrVal([]byte(node.Like)))
 	} else {
 		buf.Myprintf("where %v", node.Filter)
 	}
